@@ -18,6 +18,7 @@ structure Case where
   prevF : Nat := 0
   unsafeAt : Option String := none
   wantBinds : Bool := false
+  calls : List Call := []
 
 def fieldVal (toks : List String) (key : String) : Nat :=
   match toks.find? (fun t => t.startsWith key) with
@@ -40,7 +41,7 @@ def handleCall (c : Case) (line : String) : Case :=
     let safe := safeCall c.s call
     let s' := step c.s call
     let bad := s'.frames.length ≠ obsR ∨ s'.fragments.length ≠ obsF
-    { c with s := s', idx := c.idx + 1, prevF := obsF,
+    { c with s := s', idx := c.idx + 1, prevF := obsF, calls := call :: c.calls,
              mism := if bad ∧ c.mism.length < 5 then
                        c.mism ++ [s!"M {c.idx} {name} pred R={s'.frames.length} F={s'.fragments.length} obs R={obsR} F={obsF}"]
                      else c.mism,
@@ -62,6 +63,7 @@ partial def loop (h : IO.FS.Stream) (out : IO.FS.Stream) (cur : Option Case) : I
       out.putStrLn s!"I {invReport c.s}"
       out.putStrLn s!"S {match c.unsafeAt with | some w => w | none => "ok"}"
       out.putStrLn s!"E {c.s.diags}"
+      out.putStrLn s!"P {if initShape false c.calls.reverse then "ok" else "fail"}"
       for d in c.s.dump do out.putStrLn s!"D {d}"
       if c.wantBinds then
         for b in c.s.binds.reverse do
